@@ -59,6 +59,52 @@ class Writer:
         self.nodes.append((start, len(out), depth))
 
 
+class LayoutWriter:
+    """The documented layout with the choices it leaves open made at random, per structure: what the
+    padding words hold, whether a structure with neither value nor children keeps Padding1, whether
+    padding follows a value that ends its structure or the last child of a structure, and wType.
+    (Spec.IsNode in lean/PeliteModel/Spec/Version.lean is the relation; Spec.VInfo.isBlockB its test.)"""
+    def __init__(self, rng):
+        self.rng = rng
+        self.out = []
+
+    def padword(self):
+        return self.rng.choice([0, 0, 0xFFFF, 1, 0x41, 0xAAAA, self.rng.randrange(65536)])
+
+    def align(self):
+        while len(self.out) % 2:
+            self.out.append(self.padword())
+
+    def node(self, n):
+        rng, out = self.rng, self.out
+        start = len(out)
+        vl = len(n.value) if n.text else 2 * len(n.value)
+        out += [0, vl, rng.choice([0, 1, 1 if n.text else 0, 7, 0xFFFF])]
+        out += n.key + [0]
+        if not n.value and not n.children and rng.random() < 0.5:
+            pass                                    # ends right after the key
+        else:
+            self.align()                            # Padding1
+            out += n.value
+            if n.children:
+                self.align()                        # Padding2
+                for i, c in enumerate(n.children):
+                    self.node(c)
+                    if i + 1 < len(n.children) or rng.random() < 0.5:
+                        self.align()                # between siblings: always; after the last: optional
+            elif rng.random() < 0.5:
+                self.align()                        # Padding2 kept although nothing follows
+        out[start] = 2 * (len(out) - start)
+
+
+def encode_layout(rng, v):
+    w = LayoutWriter(rng)
+    w.node(to_node(v))
+    if rng.random() < 0.3:                          # whatever follows the root is not part of the resource
+        w.out += [rng.choice([0, 1, 0xFFFF, rng.randrange(65536)]) for _ in range(rng.choice([1, 2, 3, 5, 8]))]
+    return w.out
+
+
 # abstract version info: dict(key=[..], value=[..], blocks=[("S", [(lang, [(key, stored), ..]), ..]) | ("R", [(key, value), ..])])
 K_SFI, K_VFI, K_TR, K_ROOT = W("StringFileInfo"), W("VarFileInfo"), W("Translation"), W("VS_VERSION_INFO")
 
@@ -74,13 +120,15 @@ def to_node(v):
 
 
 def tree_arg(v, tight):
+    """tight: False / True = the block comes from the reference conventions; "L" = from LayoutWriter"""
     bl = []
     for kind, items in v["blocks"]:
         if kind == "S":
             bl.append("S" + ";".join("%s:%s" % (hexw(l), ",".join("%s=%s" % (hexw(k), hexw(s)) for k, s in strs)) for l, strs in items))
         else:
             bl.append("R" + ";".join("%s=%s" % (hexw(k), hexw(val)) for k, val in items))
-    return "tree=%d/%s/%s/%s" % (1 if tight else 0, hexw(v["key"]), hexw(v["value"]), "|".join(bl))
+    mode = "L" if tight == "L" else "1" if tight else "0"
+    return "tree=%s/%s/%s/%s" % (mode, hexw(v["key"]), hexw(v["value"]), "|".join(bl))
 
 
 def encode(v, tight=False, conv="doc", trail=False):
@@ -241,6 +289,30 @@ def gen_wellformed(rng, tier):
         hx = hexb(ws)
         t = tree_arg(big, False)
         cases.append(["ver %s events %s" % (hx, t), "ver %s file_info %s" % (hx, t), "ver %s value 040904b0 %s %s" % (hx, hexw(W("Key1099")), t), "ver %s source" % hx])
+    return cases
+
+
+def gen_layouts(rng, tier):
+    """documented layouts that are not the image of one writer convention: the choices the layout
+    leaves open are made at random per structure; judged against the abstract tree (lay=1)"""
+    cases = []
+    n = 200 if tier == "quick" else 5000
+    fixed_docs = [
+        {"key": K_ROOT, "value": [], "blocks": []},
+        {"key": W("A"), "value": [], "blocks": []},
+        {"key": K_ROOT, "value": FIXED, "blocks": [("S", [(W("040904b0"), [(W("A"), []), (W("Bc"), [0]), (W("Def"), W("x\0")), (W(""), W("y\0"))])]), ("R", [(K_TR, [0x409, 1200])])]},
+        {"key": K_ROOT, "value": FIXED, "blocks": [("R", [(K_TR, [0x409, 1200, 0x407, 1252]), (W("T"), [])]), ("S", [(W("040904b0"), []), (W("000004b0"), [(W("A"), [])])])]},
+    ]
+    for v in fixed_docs:
+        for _ in range(6):
+            ws = encode_layout(rng, v)
+            cases.append(query_ops(rng, v, hexb(ws), tree_arg(v, "L")))
+    for i in range(n):
+        v = rand_info(rng, rng.random() < 0.75)
+        ws = encode_layout(rng, v)
+        if 2 * len(ws) >= 65536:
+            continue
+        cases.append(query_ops(rng, v, hexb(ws), tree_arg(v, "L"), every=(i % 4 == 0)))
     return cases
 
 
